@@ -130,62 +130,85 @@ mod verif_kani_parser {
         }
     }
 
-    fn scalar_case(c: char) {
-        let mut p = any_parser(3);
-        let ps0 = p.params[0].parts[0];
-        let ps1 = p.params[1].parts[0];
-        let ps2 = p.params[2].parts[0];
-        let inter = p.intermediate;
+    /// scalar view of a dispatched function: (variant tag, first argument, second argument);
+    /// list-valued variants map to tag 255 (they never occur for the scalar finals)
+    fn key(f: &Option<Function>) -> (u8, u16, u16) {
+        use Function::*;
+        match f {
+            None => (0, 0, 0),
+            Some(Bs) => (1, 0, 0), Some(Cbt(n)) => (2, *n, 0), Some(Cha(n)) => (3, *n, 0), Some(Cht(n)) => (4, *n, 0),
+            Some(Cnl(n)) => (5, *n, 0), Some(Cpl(n)) => (6, *n, 0), Some(Cr) => (7, 0, 0),
+            Some(Ctc(CtcOp::Set)) => (8, 0, 0), Some(Ctc(CtcOp::ClearCurrentColumn)) => (8, 1, 0), Some(Ctc(CtcOp::ClearAll)) => (8, 2, 0),
+            Some(Cub(n)) => (9, *n, 0), Some(Cud(n)) => (10, *n, 0), Some(Cuf(n)) => (11, *n, 0), Some(Cup(a, b)) => (12, *a, *b),
+            Some(Cuu(n)) => (13, *n, 0), Some(Dch(n)) => (14, *n, 0), Some(Decaln) => (15, 0, 0), Some(Decrc) => (16, 0, 0),
+            Some(Decsc) => (17, 0, 0), Some(Decstbm(a, b)) => (18, *a, *b), Some(Decstr) => (19, 0, 0), Some(Dl(n)) => (20, *n, 0),
+            Some(Ech(n)) => (21, *n, 0),
+            Some(Ed(EdScope::Below)) => (22, 0, 0), Some(Ed(EdScope::Above)) => (22, 1, 0), Some(Ed(EdScope::All)) => (22, 2, 0), Some(Ed(EdScope::SavedLines)) => (22, 3, 0),
+            Some(El(ElScope::ToRight)) => (23, 0, 0), Some(El(ElScope::ToLeft)) => (23, 1, 0), Some(El(ElScope::All)) => (23, 2, 0),
+            Some(G1d4(Charset::Ascii)) => (24, 0, 0), Some(G1d4(Charset::Drawing)) => (24, 1, 0),
+            Some(Gzd4(Charset::Ascii)) => (25, 0, 0), Some(Gzd4(Charset::Drawing)) => (25, 1, 0),
+            Some(Ht) => (26, 0, 0), Some(Hts) => (27, 0, 0), Some(Ich(n)) => (28, *n, 0), Some(Il(n)) => (29, *n, 0),
+            Some(Lf) => (30, 0, 0), Some(Nel) => (31, 0, 0), Some(Print(c)) => (32, *c as u16, ((*c as u32) >> 16) as u16),
+            Some(Rep(n)) => (33, *n, 0), Some(Ri) => (34, 0, 0), Some(Ris) => (35, 0, 0), Some(Scorc) => (36, 0, 0), Some(Scosc) => (37, 0, 0),
+            Some(Sd(n)) => (38, *n, 0), Some(Si) => (39, 0, 0), Some(So) => (40, 0, 0), Some(Su(n)) => (41, *n, 0),
+            Some(Tbc(TbcScope::CurrentColumn)) => (42, 0, 0), Some(Tbc(TbcScope::All)) => (42, 1, 0),
+            Some(Vpa(n)) => (43, *n, 0), Some(Vpr(n)) => (44, *n, 0), Some(Xtwinops(XtwinopsOp::Resize(a, b))) => (45, *a, *b),
+            Some(Decrst(_)) | Some(Decset(_)) | Some(Rm(_)) | Some(Sm(_)) | Some(Sgr(_)) => (255, 0, 0),
+        }
+    }
+
+    /// one symbolic parser (three live parameters, any intermediate), dispatched with each of
+    /// the given CONCRETE final bytes
+    fn scalar_finals(finals: &[u8]) {
+        let mut p = Parser::new();
+        p.cur_param = kani::any();
+        kani::assume(p.cur_param < 3);
+        let v: [u16; 3] = kani::any();
+        p.params[0].parts[0] = v[0];
+        p.params[1].parts[0] = v[1];
+        p.params[2].parts[0] = v[2];
+        let inter: Option<char> = if kani::any() { Some(kani::any()) } else { None };
+        p.intermediate = inter;
         let cur = p.cur_param;
-        if is_vec_final(inter, c) {
-            return;
-        }
-        let r = p.csi_dispatch(c);
-        assert!(r == ref_scalar(ps0, ps1, ps2, inter, c));
-        // the parser itself is untouched by dispatch
-        assert!(p.cur_param == cur && p.intermediate == inter && p.state == State::Ground);
-        assert!(p.params[0].parts[0] == ps0 && p.params[1].parts[0] == ps1 && p.params[2].parts[0] == ps2);
-    }
-
-    fn scalar_range(lo: u8, hi: u8) {
-        let b: u8 = kani::any();
-        kani::assume(lo <= b && b <= hi);
-        // concrete enumeration of the final byte (DESIGN.md: the discriminating value is
-        // enumerated, everything else stays symbolic)
-        let mut x = lo;
-        while x <= hi {
-            if x == b {
-                scalar_case(x as char);
+        let mut k = 0;
+        while k < finals.len() {
+            let c = finals[k] as char;
+            if !is_vec_final(inter, c) {
+                let r = p.csi_dispatch(c);
+                assert!(key(&r) == key(&ref_scalar(v[0], v[1], v[2], inter, c)));
+                // dispatch leaves the parser untouched
+                assert!(p.cur_param == cur && p.intermediate == inter);
+                assert!(p.params[0].parts[0] == v[0] && p.params[1].parts[0] == v[1] && p.params[2].parts[0] == v[2]);
             }
-            x += 1;
+            k += 1;
         }
-        kani::cover!(b == hi);
+        kani::cover!(inter == Some('!'));
     }
 
     #[kani::proof]
     #[kani::unwind(34)]
-    fn k_csi_scalar_40() { scalar_range(0x40, 0x47) }
+    fn k_csi_scalar_40() { scalar_finals(&[0x40, 0x41, 0x42, 0x43, 0x44, 0x45, 0x46, 0x47]) }
     #[kani::proof]
     #[kani::unwind(34)]
-    fn k_csi_scalar_48() { scalar_range(0x48, 0x4f) }
+    fn k_csi_scalar_48() { scalar_finals(&[0x48, 0x49, 0x4a, 0x4b, 0x4c, 0x4d, 0x4e, 0x4f]) }
     #[kani::proof]
     #[kani::unwind(34)]
-    fn k_csi_scalar_50() { scalar_range(0x50, 0x57) }
+    fn k_csi_scalar_50() { scalar_finals(&[0x50, 0x51, 0x52, 0x53, 0x54, 0x55, 0x56, 0x57]) }
     #[kani::proof]
     #[kani::unwind(34)]
-    fn k_csi_scalar_58() { scalar_range(0x58, 0x5f) }
+    fn k_csi_scalar_58() { scalar_finals(&[0x58, 0x59, 0x5a, 0x5b, 0x5c, 0x5d, 0x5e, 0x5f]) }
     #[kani::proof]
     #[kani::unwind(34)]
-    fn k_csi_scalar_60() { scalar_range(0x60, 0x67) }
+    fn k_csi_scalar_60() { scalar_finals(&[0x60, 0x61, 0x62, 0x63, 0x64, 0x65, 0x66, 0x67]) }
     #[kani::proof]
     #[kani::unwind(34)]
-    fn k_csi_scalar_68() { scalar_range(0x68, 0x6f) }
+    fn k_csi_scalar_68() { scalar_finals(&[0x68, 0x69, 0x6a, 0x6b, 0x6c, 0x6d, 0x6e, 0x6f]) }
     #[kani::proof]
     #[kani::unwind(34)]
-    fn k_csi_scalar_70() { scalar_range(0x70, 0x77) }
+    fn k_csi_scalar_70() { scalar_finals(&[0x70, 0x71, 0x72, 0x73, 0x74, 0x75, 0x76, 0x77]) }
     #[kani::proof]
     #[kani::unwind(34)]
-    fn k_csi_scalar_78() { scalar_range(0x78, 0x7e) }
+    fn k_csi_scalar_78() { scalar_finals(&[0x78, 0x79, 0x7a, 0x7b, 0x7c, 0x7d, 0x7e]) }
 
     #[kani::proof]
     #[kani::unwind(34)]
@@ -195,7 +218,8 @@ mod verif_kani_parser {
         let c: char = kani::any();
         kani::assume(!('\u{40}'..='\u{7e}').contains(&c));
         let mut p = any_parser(3);
-        assert!(p.csi_dispatch(c).is_none());
+        let r = p.csi_dispatch(c);
+        assert!(key(&r).0 == 0);
         kani::cover!(c as u32 > 0xa0);
     }
 
